@@ -38,7 +38,7 @@ PROPS["C09"] = {
 }
 
 PROPS["C08"] = {
-    "modules": ["SlogModel.Props.C08", "SlogModel.Props.C08Flush"],
+    "modules": ["SlogModel.Props.C08", "SlogModel.Props.C08Flush", "SlogModel.Props.C08Idx"],
     "components": [("frame", 20000, 300000), ("flush", 14, 160)],
     "rule": "one case = one reader instance driven by a sequence of read / flush / flushall calls (offsets and emitted "
             "records compared after every call); includes all 1-cut and (windowed) 2-cut splits of five short streams, random "
@@ -51,7 +51,11 @@ PROPS["C08"] = {
     "level_text": "Theorems C08_fragmentation (any two non-overflowing fragmentations of a stream emit the same records and reach "
                   "the same state as the byte-fed reference framer), C08_no_overflow_of_prefixes (the side condition depends on the "
                   "stream only), C08_flush_single_line (single-line valid records, any cuts, flush ticks anywhere: exactly the "
-                  "lines, once each, in order), C08_continuation and C08_next_start_emits (continuation lines stay attached), "
+                  "lines, once each, in order), C08_continuation and C08_next_start_emits (continuation lines stay attached); C08_process_buffer_is_feed / "
+                  "C08_fragmentation_index_level (Model/FrameIdx.lean transcribes processBuffer statement by statement - flat buffer, recordStart / searchStart, "
+                  "bytes.IndexByte, the slices, the relocation - and for every reader state and fragment this index loop emits exactly the records and leaves "
+                  "exactly the buffer and offsets of the byte-fed model, so the framing theorems are theorems about the index loop; two whole-body facts pin "
+                  "processBuffer and Read), "
                   "proved in Lean 4 for all streams / cuts / flush placements on a model of multilinereader.go whose derived "
                   "offsets are compared with the real offsetSearch / offsetAppend after every call. When the listener flushes "
                   "(Model/FlushPolicy.lean: NetConnWrapper.Read's lazy deadline renewal and the read loop of runConnection): "
@@ -60,8 +64,9 @@ PROPS["C08"] = {
                   "multi-line record although the sender did not pause, number at most lifetime / interval + 1), consistent_of_renew "
                   "(the observer's check of a real Read accepts every behaviour of the model); tied by four regenerated source facts "
                   "(renewal condition, 2x interval, the listener's interval, the read loop's flush branches) and the flush component.",
-    "level_note": "Trusted: Lean kernel + 3 standard axioms; that processBuffer's index loop equals the byte-fed model is "
-                  "established by the differential run (all outputs and both offsets, every call), not by proof; in the framing "
+    "level_note": "Trusted: Lean kernel + 3 standard axioms; processBuffer's index loop is proved equal to the byte-fed model "
+                  "(C08_process_buffer_is_feed), its transcription pinned by whole-body facts and by the differential run (all outputs and both "
+                  "offsets, every call); Flush / FlushAll / checkOverflow are modelled at the byte-list level only; in the framing "
                   "theorems flush ticks are placed arbitrarily, and the flush-policy theorems bound where the real listener places "
                   "them; kernel timers fire no earlier than their deadline (observed one-sidedly).",
     "partial": "the theorems assume no overflow handling is triggered (records shorter than the soft limit); the overflow branch "
@@ -106,7 +111,7 @@ PROPS["C14"] = {
                   "property's wording. Two recorded deviations from the letter of 'domain not purely numeric' are known findings.",
     "level_note": "Trusted: Lean kernel + 3 standard axioms; sampled model-code correspondence; the formalisation of the supported "
                   "address shape (harness oracle / DESIGN.md C14).",
-    "partial": "completeness proved for dotted, not number-like domains; truncated domains and soundness by the reference-redactor oracle",
+    "partial": "completeness proved for dotted and for truncated domains that are not number-like; soundness by the reference-redactor oracle",
     "assumptions": [],
 }
 
@@ -178,7 +183,11 @@ PROPS["C15"] = {
 PROPS["C16"] = {
     "modules": ["SlogModel.Props.C16"],
     "components": [("cfg", 4000, 100000)],
-    "rule": "transform level: generated valid transform lists (nesting <= 3) and, for EVERY reference / expression / list site of "
+    "rule": "output-section level: generated serialization / upstream sections (1-3 environment fields, 0-3 hidden fields, 0-3 rewriter "
+            "chains inline* + copy|unescape on any field incl. hidden and environment ones, each part damaged with a few percent probability: unknown / empty "
+            "field, inline last, a step after the last, an entry without a value, bad mode, missing address / duration) -> real "
+            "fluentdforward.Config.VerifyConfig vs CfgSer.verify, accepted ones instantiated by NewEventSerializer and used; file level also on a "
+            "variant of the sample with rewriter chains on a hidden and an environment field; transform level: generated valid transform lists (nesting <= 3) and, for EVERY reference / expression / list site of "
             "each, one invalid substitution (unknown / empty / wrong-case field, uncompilable template, out-of-range slice bound, "
             "bad pattern, bad percentage / size, empty list) -> real VerifyTransformConfigs vs Cfg.verifySteps, accepted ones "
             "instantiated and run on records under recover; file level: the sample configuration with every scalar at a "
@@ -189,13 +198,16 @@ PROPS["C16"] = {
                   "without reaching any Must.../panic site and the constructed program processes every record without panic "
                   "(mutual structural induction over the configuration AST, reusing the interpreter totality theorem); "
                   "C16_extractor_wf; C16_fact_must_sites (regenerated inventory of 33 Must/panic/Fatal sites in constructors equals "
-                  "the reviewed list, each annotated with the check that excludes it). The YAML / section-presence glue is decided "
+                  "the reviewed list, each annotated with the check that excludes it); C16_serializer_verify_sound (Model/CfgSer.lean: a Fluentd "
+                  "Forward output section that VerifyConfig accepts - environment / hidden fields, a rewriter chain on any field, masked or not, "
+                  "message mode, upstream - is instantiated by NewEventSerializer / NewRewritersFromConfig / the rewriters' NewRewriter without "
+                  "reaching a panic site or an error value). The YAML / section-presence glue is decided "
                   "by the correspondence run, where the property itself (error value, never a crash) is the oracle.",
     "level_note": "Trusted: Lean kernel + 3 standard axioms; sampled correspondence of Cfg.verifySteps with the real VerifyConfig "
                   "methods; the text-level template parser and YAML decoding are exercised, not modelled. Inputs / orchestration "
-                  "/ output / buffer sections are covered by the file-level mutation run and the must-site inventory, not by a "
+                  "/ buffer sections and the Datadog output are covered by the file-level mutation run and the must-site inventory, not by a "
                   "Lean model.",
-    "partial": "verification logic of non-transform sections not modelled in Lean",
+    "partial": "verification logic of the input / orchestration / buffer sections not modelled in Lean",
     "assumptions": [],
 }
 
@@ -369,7 +381,7 @@ PROPS["C19"] = {
 
 PROPS["C07"] = {
     "modules": ["SlogModel.Props.C07"],
-    "components": [("pipe-c07", 1500, 30000), ("agent-c07", 30, 300), ("parse", 6000, 100000), ("ser", 1500, 20000), ("xform", 4000, 40000)],
+    "components": [("pipe-c07", 1500, 30000), ("agent-c07", 30, 300), ("parse", 6000, 100000), ("ser", 1500, 20000), ("xform", 4000, 40000), ("route", 1500, 30000)],
     "rule": "pipe: one case = one real record path (syslog parser with limits 60/200/2000 and two level mappings, a generated "
             "transform program over a 15-field schema fed by the parsed fields, the Fluentd event serializer with environment / "
             "hidden fields and unescape rewriters) processing 8 lines - the parser's hostile corpus, binary garbage behind a valid "
@@ -392,8 +404,8 @@ PROPS["C07"] = {
 }
 
 PROPS["C12"] = {
-    "modules": ["SlogModel.Props.C12"],
-    "components": [("pipe-c12", 1500, 30000), ("agent-c12", 40, 400), ("route", 1500, 30000)],
+    "modules": ["SlogModel.Props.C12", "SlogModel.Props.C12Pool"],
+    "components": [("pipe-c12", 1500, 30000), ("agent-c12", 40, 400), ("route", 1500, 30000), ("pool", 3000, 60000)],
     "rule": "one case = one long-lived real record path (pooled records and backing buffers, released after every record) "
             "processing 9 lines of mixed size and shape; every line is processed again on a freshly built path; both outcomes must "
             "be identical (unless the program samples by percentage) and equal to Pipe.process; distinct by ops; all non-trivial",
